@@ -156,6 +156,10 @@ F4b == UNION {{Prog("F4b", <<For(Asg("=", i, Num(0)), Bin("!=", i, Num(4)), Inc(
        \cup {Prog("F4b", <<Set("a", 3), Do(<<S(Inc(FALSE, -1, Var("a"))), If(Bin("==", Var("a"), Var("b")), <<j1>>, <<>>), S(Inc(FALSE, 1, Var("c")))>>, Var("a"))>>) : j1 \in {Break, Continue}}
        \cup {Prog("F4b", <<Set("a", 3), Do(<<S(Inc(FALSE, -1, Var("a"))), Switch(Var("a"), <<Case(<<1>>, <<j1>>), Case(<<2>>, <<S(Inc(FALSE, 1, Var("b"))), j2>>)>>), S(Inc(FALSE, 1, Var("c")))>>, Var("a"))>>) :
                j1 \in {Break, Continue}, j2 \in {Break, Continue}}
+       \* the if (c) continue; / if (c) break; shortcuts inside a case, in every kind of loop
+       \cup {Prog("F4b", <<Set("a", 3), Do(<<S(Inc(FALSE, -1, Var("a"))), Switch(Var("a"), <<Case(<<1>>, <<If(Var("b"), <<j1>>, <<>>), S(Inc(FALSE, 1, Var("c"))), Break>>), Default(<<S(Inc(FALSE, 1, Var("b")))>>)>>), S(Inc(FALSE, 1, Var("X")))>>, Var("a"))>>) : j1 \in {Break, Continue}}
+       \cup {Prog("F4b", <<Set("a", 3), While(Var("a"), <<S(Inc(FALSE, -1, Var("a"))), Switch(Var("a"), <<Case(<<1>>, <<If(Var("b"), <<j1>>, <<>>), S(Inc(FALSE, 1, Var("c"))), Break>>), Default(<<S(Inc(FALSE, 1, Var("b")))>>)>>), S(Inc(FALSE, 1, Var("X")))>>)>>) : j1 \in {Break, Continue}}
+       \cup {Prog("F4b", <<For(Asg("=", Var("a"), Num(0)), Bin("!=", Var("a"), Num(3)), Inc(FALSE, 1, Var("a")), <<Switch(Var("a"), <<Case(<<1>>, <<If(Var("b"), <<j1>>, <<>>), S(Inc(FALSE, 1, Var("c"))), Break>>), Default(<<S(Inc(FALSE, 1, Var("b")))>>)>>), S(Inc(FALSE, 1, Var("X")))>>)>>) : j1 \in {Break, Continue}}
 \* F4: switch
 Scrut == {Var("a"), Var("X"), Var("Y"), Bin("&", Var("a"), Num(3)), Idx("arr", Var("X"))}
 F4 == {Prog("F4", <<Switch(e, <<Case(<<0>>, <<Set("c", 10)>> \o brk1), Case(<<1, 2>>, <<Set("c", 20)>> \o brk2), Default(<<Set("b", 30)>>)>>)>>) :
@@ -363,6 +367,12 @@ F3e == {Prog("F3e", <<For(Asg("=", i, Inc(FALSE, dd, Var("b"))), Bin("<", i, Num
               Prog("F3e", <<For(Asg("=", Var("X"), Num(0)), Bin("<", Inc(FALSE, 1, Var("X")), Num(4)), None, <<S(Asg("+", Var("c"), Idx("arr", Var("X"))))>>)>>),
               Prog("F3e", <<S(Asg("=", Var("s"), Inc(FALSE, 1, Var("t")))), S(Asg("=", Var("ss"), Var("t")))>>),
               Prog("F3e", <<S(Comma(Inc(FALSE, 1, Var("a")), Asg("=", Var("b"), Var("a"))))>>),
+              \* postponed ++ inside an operand of a 16-bit expression (generated in two passes: the increment must happen once)
+              Prog("F3e", <<S(Asg("=", Var("s"), Bin("|", Var("Y"), Bin("<<", Inc(FALSE, 1, Var("X")), Num(8))))), S(Asg("=", Var("c"), Var("X")))>>),
+              Prog("F3e", <<S(Asg("=", Var("s"), Bin("<<", Inc(FALSE, 1, Var("a")), Num(8)))), S(Asg("=", Var("c"), Var("a")))>>),
+              Prog("F3e", <<S(Asg("=", Var("s"), Bin("+", Var("t"), Inc(FALSE, 1, Var("a"))))), S(Asg("=", Var("c"), Var("a")))>>),
+              Prog("F3e", <<S(Asg("+", Var("s"), Inc(FALSE, -1, Var("X")))), S(Asg("=", Var("c"), Var("X")))>>),
+              Prog("F3e", <<S(Asg("=", Idx("sarr", Var("X")), Bin("|", Var("a"), Bin("<<", Inc(FALSE, 1, Var("b")), Num(8))))), S(Asg("=", Var("c"), Var("b")))>>),
               Prog("F3e", <<S(Comma(Inc(FALSE, -1, Var("X")), Asg("=", Var("c"), Idx("arr", Var("X")))))>>),
               Prog("F3e", <<For(Comma(Asg("=", Var("X"), Num(0)), Asg("=", Var("c"), Num(0))), Bin("<", Var("X"), Num(4)), Comma(Inc(FALSE, 1, Var("X")), Asg("=", Var("c"), Var("X"))), <<S(Inc(FALSE, 1, Var("b")))>>)>>),
               Prog("F3e", <<S(Asg("=", Var("c"), Comma(Inc(FALSE, 1, Var("a")), Bin("+", Var("a"), Num(1)))))>>),
